@@ -53,6 +53,8 @@ const (
 	tEnum    gtype = "Enum"    // a protobuf enum (int32 constants)
 	tSigners gtype = "Signers" // Params.EntSigners: the comma-separated list of addresses, abstract: the list itself
 	tModAcc  gtype = "ModAcc"  // a module account handle as returned by Get<Module>Account (nil when not set)
+	tAnyMsg  gtype = "AnyMsg"  // an sdk.Msg: one of the module's message structs or something else
+	tTx      gtype = "Tx"      // sdk.Tx / sdk.FeeTx: messages, fee, fee payer
 )
 
 func isStruct(t gtype) bool { return strings.HasPrefix(string(t), "S:") }
@@ -92,6 +94,10 @@ func coqTypeK(t gtype) string {
 		return "(list go_addr)"
 	case tModAcc:
 		return "go_modacc"
+	case tAnyMsg:
+		return "go_anymsg"
+	case tTx:
+		return "go_tx"
 	}
 	if isStruct(t) {
 		return "go_" + structName(t)
@@ -177,6 +183,10 @@ func goTypeK(e ast.Expr) gtype {
 		return tTime
 	case "sdk.Context", "context.Context":
 		return tCtx
+	case "sdk.Tx", "sdk.FeeTx":
+		return tTx
+	case "sdk.Msg":
+		return tAnyMsg
 	}
 	n = strings.TrimPrefix(n, "types.")
 	if _, ok := structTable[n]; ok {
@@ -215,6 +225,7 @@ type moduleSpec struct {
 	msgTypes  []string    // message types whose ValidateBasic (types/msgs.go) is translated too
 	typeFuncs [][2]string // (file of x/<module>/types, function): pure helpers of package types translated too
 	rootFiles []string    // files of x/<module>/ (package root: genesis.go) whose functions may be listed in want
+	anteFiles []string    // files relative to x/<module>/ (ante/ante.go, exported/exported.go) whose functions may be listed
 }
 
 type constDef struct {
@@ -375,6 +386,17 @@ func writeStructTypes(out string) {
 	for _, n := range enumOrder {
 		sb.WriteString(fmt.Sprintf("Definition %s_%s : Z := %s.\n", cur.name, n, enumConsts[n]))
 	}
+	// sdk.Msg as seen by this module's ante decorator: its own message structs, or anything else
+	var ctors []string
+	for _, n := range structOrder {
+		if strings.HasPrefix(n, "Msg") && !strings.HasSuffix(n, "Response") && done[n] && len(structTable[n]) > 0 && structTable[n][0].typ != tUnknown {
+			ctors = append(ctors, fmt.Sprintf("| AM_%s (m : go_%s)", n, n))
+		}
+	}
+	if len(ctors) > 0 {
+		sb.WriteString("\nInductive go_anymsg :=\n" + strings.Join(ctors, "\n") + "\n| AM_Other (tag : Z).\n")
+		sb.WriteString("Record go_tx := mk_go_tx { Tx_Msgs : list go_anymsg; Tx_Fee : list go_coin; Tx_FeePayer : go_addr }.\n")
+	}
 	os.WriteFile(out, []byte(sb.String()), 0o644)
 }
 
@@ -422,6 +444,7 @@ var streamPrims = map[string]fnSig{
 var kMethodTable = map[methodKey]fnSig{
 	{tInt, "GT"}: {coq: "Int_GT", results: []gtype{tBool}}, {tInt, "LT"}: {coq: "Int_LT", results: []gtype{tBool}},
 	{tInt, "IsZero"}:      {coq: "Int_IsZero", results: []gtype{tBool}},
+	{tInt, "Mul"}:         {coq: "Int_Mul", results: []gtype{tInt}},
 	{tCoin, "IsNil"}:      {coq: "Coin_IsNil", results: []gtype{tBool}},
 	{tCoin, "IsNegative"}: {coq: "Coin_IsNegative", results: []gtype{tBool}},
 	{tCoin, "IsZero"}:     {coq: "Coin_IsZero", results: []gtype{tBool}},
@@ -446,6 +469,9 @@ var kMethodTable = map[methodKey]fnSig{
 	{tCoins, "IsZero"}:      {coq: "Coins_IsZero", results: []gtype{tBool}},
 	{tCoins, "IsEqual"}:     {coq: "Coins_IsEqual", impure: true, results: []gtype{tBool}},
 	{tModAcc, "GetAddress"}: {coq: "modacc_addr", results: []gtype{tAddr}},
+	{tTx, "GetMsgs"}:        {coq: "Tx_Msgs", results: []gtype{"L:AnyMsg"}},
+	{tTx, "GetFee"}:         {coq: "Tx_Fee", results: []gtype{tCoins}},
+	{tTx, "FeePayer"}:       {coq: "Tx_FeePayer", results: []gtype{tAddr}},
 	{tCoin, "IsPositive"}:   {coq: "Coin_IsPositive", results: []gtype{tBool}},
 }
 
@@ -484,6 +510,11 @@ func registryPrims(ent, rec string) map[string]fnSig {
 	}
 	for k, v := range rec2prims(rec) {
 		m[k] = v
+	}
+	// ante
+	m["k.GetParamDenom"] = fnSig{coq: "reg_GetParamDenom", reads: true, results: []gtype{tDenom}, dropCtx: true}
+	for _, g := range []string{"GetZeroFeeAsCoin", "GetRegistrationFeeAsCoin", "GetRecordFeeAsCoin", "GetPurchaseStorageFeeAsCoin"} {
+		m["k."+g] = fnSig{coq: "reg_" + g, reads: true, impure: true, results: []gtype{tCoin}, dropCtx: true}
 	}
 	// genesis
 	m["k.GetParams"] = fnSig{coq: "reg_GetParams", reads: true, results: []gtype{"S:Params"}, dropCtx: true}
@@ -581,15 +612,17 @@ var modules = map[string]*moduleSpec{
 		msgTypes: []string{"MsgCreateStream", "MsgClaimStream", "MsgTopUpDeposit", "MsgUpdateFlowRate", "MsgCancelStream"}},
 	"wrkchain": {name: "wrkchain", pbFiles: []string{"wrkchain.pb.go", "tx.pb.go", "genesis.pb.go"}, rootFiles: []string{"genesis.go"}, typeFuncs: [][2]string{{"params.go", "validateFeeDenom"}, {"params.go", "validateFeeRegister"}, {"params.go", "validateFeeRecord"}, {"params.go", "validateFeePurchaseStorage"}, {"params.go", "validateDefaultStorageLimit"}, {"params.go", "validateMaxStorageLimit"}, {"params.go", "Params.Validate"}, {"genesis.go", "NewGenesisState"}}, goFiles: []string{"register.go", "record.go", "msg_server.go"},
 		want: []string{"QuickCheckHeightIsNew", "GetMaxPurchasableSlots", "IncreaseInStateStorage", "RegisterNewWrkChain", "RecordNewWrkchainHashes",
-			"RegisterWrkChain", "RecordWrkChainBlock", "PurchaseWrkChainStateStorage", "UpdateParams", "InitGenesis", "ExportGenesis"},
-		prims: registryPrims("WrkChain", "WrkChainBlock"), consts: registryConsts, world: "rworld",
+			"RegisterWrkChain", "RecordWrkChainBlock", "PurchaseWrkChainStateStorage", "UpdateParams", "InitGenesis", "ExportGenesis", "CheckIsWrkChainTx", "checkWrkchainFees"},
+		anteFiles: []string{"ante/ante.go", "exported/exported.go"},
+		prims:     registryPrims("WrkChain", "WrkChainBlock"), consts: registryConsts, world: "rworld",
 		imports:  "lib.Prelude lib.GoSdk GeneratedWrkchainTypes model.WrkchainKeeperPrims",
 		typesMod: "GeneratedWrkchainTypes", keeperMod: "GeneratedWrkchainKeeper", listName: "wrkchain_keeper_other_functions",
 		msgTypes: []string{"MsgRegisterWrkChain", "MsgRecordWrkChainBlock", "MsgPurchaseWrkChainStateStorage"}},
 	"beacon": {name: "beacon", pbFiles: []string{"beacon.pb.go", "tx.pb.go", "genesis.pb.go"}, rootFiles: []string{"genesis.go"}, typeFuncs: [][2]string{{"params.go", "validateFeeDenom"}, {"params.go", "validateFeeRegister"}, {"params.go", "validateFeeRecord"}, {"params.go", "validateFeePurchaseStorage"}, {"params.go", "validateDefaultStorageLimit"}, {"params.go", "validateMaxStorageLimit"}, {"params.go", "Params.Validate"}, {"genesis.go", "NewGenesisState"}}, goFiles: []string{"register.go", "record.go", "msg_server.go"},
 		want: []string{"GetMaxPurchasableSlots", "IncreaseInStateStorage", "RegisterNewBeacon", "RecordNewBeaconTimestamp",
-			"RegisterBeacon", "RecordBeaconTimestamp", "PurchaseBeaconStateStorage", "UpdateParams", "InitGenesis", "ExportGenesis"},
-		prims: registryPrims("Beacon", "BeaconTimestamp"), consts: registryConsts, world: "rworld",
+			"RegisterBeacon", "RecordBeaconTimestamp", "PurchaseBeaconStateStorage", "UpdateParams", "InitGenesis", "ExportGenesis", "CheckIsBeaconTx", "checkBeaconFees"},
+		anteFiles: []string{"ante/ante.go", "exported/exported.go"},
+		prims:     registryPrims("Beacon", "BeaconTimestamp"), consts: registryConsts, world: "rworld",
 		imports:  "lib.Prelude lib.GoSdk GeneratedBeaconTypes model.BeaconKeeperPrims",
 		typesMod: "GeneratedBeaconTypes", keeperMod: "GeneratedBeaconKeeper", listName: "beacon_keeper_other_functions",
 		msgTypes: []string{"MsgRegisterBeacon", "MsgRecordBeaconTimestamp", "MsgPurchaseBeaconStateStorage"}},
@@ -600,7 +633,8 @@ type kbinding struct {
 }
 
 type kTrans struct {
-	loops        []string // innermost last: the state tuple of the enclosing range loops
+	caseOf       map[string][2]string // inside a type-switch case on an sdk.Msg variable: (struct name, bound variable)
+	loops        []string             // innermost last: the state tuple of the enclosing range loops
 	usedStateful bool
 	env          map[string]gtype
 	recv         string // receiver name (normalised to "k")
@@ -636,8 +670,12 @@ func (kt *kTrans) callName(fun ast.Expr) string {
 }
 
 var commonPrims = map[string]fnSig{
-	"math.LegacyOneDec": {coq: "Dec_One", results: []gtype{tDec}},
-	"sdk.ValidateDenom": {coq: "sdk_ValidateDenom", impure: true, hasErr: true},
+	"math.LegacyOneDec":    {coq: "Dec_One", results: []gtype{tDec}},
+	"sdk.NewInt":           {coq: "sdk_NewInt", results: []gtype{tInt}},
+	"sdk.NewIntFromUint64": {coq: "sdk_NewIntFromUint64", results: []gtype{tInt}},
+	"sdk.NewCoin":          {coq: "sdk_NewCoin", impure: true, results: []gtype{tCoin}},
+	"sdk.NewInt64Coin":     {coq: "sdk_NewCoin", impure: true, results: []gtype{tCoin}},
+	"sdk.ValidateDenom":    {coq: "sdk_ValidateDenom", impure: true, hasErr: true},
 }
 
 func (kt *kTrans) lookup(name string) (fnSig, bool) {
@@ -763,8 +801,14 @@ func (kt *kTrans) expr(e ast.Expr) (pre []kbinding, val string, typ gtype) {
 		if ty == tUnit && len(t.Elts) == 0 {
 			return nil, "tt", tUnit
 		}
-		if ty == tCoins && len(t.Elts) == 0 {
-			return nil, "[]", tCoins
+		if ty == tCoins {
+			var es []string
+			for _, el := range t.Elts {
+				p, v, _ := kt.expr(el)
+				pre = append(pre, p...)
+				es = append(es, v)
+			}
+			return pre, "[" + strings.Join(es, "; ") + "]", tCoins
 		}
 		if ty == tCoin && len(t.Elts) == 0 {
 			return nil, "go_zero_coin", tCoin
@@ -1193,6 +1237,8 @@ func (kt *kTrans) stmts(list []ast.Stmt) string {
 		return "?"
 	case *ast.RangeStmt:
 		return kt.rangeStmt(t, rest)
+	case *ast.TypeSwitchStmt:
+		return kt.typeSwitch(t, rest)
 	case *ast.DeferStmt:
 		if isEventOrTelemetry(t.Call) {
 			return kt.stmts(rest)
@@ -1254,6 +1300,22 @@ func (kt *kTrans) stmts(list []ast.Stmt) string {
 			}
 			kt.fail("unsupported type assertion")
 			return "?"
+		}
+		// errMsg := fmt.Sprintf(..): message texts are not modelled
+		if ce, ok := t.Rhs[0].(*ast.CallExpr); ok && exprName(ce.Fun) == "fmt.Sprintf" && len(t.Lhs) == 1 {
+			kt.env[exprName(t.Lhs[0])] = tStr
+			return "let " + exprName(t.Lhs[0]) + " := EmptyString in\n" + kt.stmts(rest)
+		}
+		// m := msg.(*types.MsgX) inside the case of a type switch on msg
+		if ta, ok := t.Rhs[0].(*ast.TypeAssertExpr); ok && len(t.Lhs) == 1 && kt.env[exprName(ta.X)] == tAnyMsg {
+			cs, okc := kt.caseOf[exprName(ta.X)]
+			want := strings.TrimPrefix(exprName(ta.Type), "types.")
+			if !okc || cs[0] != want {
+				kt.fail("type assertion %s.(%s) outside the matching case", exprName(ta.X), want)
+				return "?"
+			}
+			kt.env[exprName(t.Lhs[0])] = gtype("S:" + want)
+			return "let " + exprName(t.Lhs[0]) + " := " + cs[1] + " in\n" + kt.stmts(rest)
 		}
 		// logger := k.Logger(ctx): logging is not modelled
 		if ce, ok := t.Rhs[0].(*ast.CallExpr); ok && kt.callName(ce.Fun) == "k.Logger" && exprName(t.Lhs[0]) == "logger" {
@@ -1413,6 +1475,88 @@ func (kt *kTrans) ret(results []ast.Expr) string {
 	return kwrap(pre, "Ok "+val)
 }
 
+// typeSwitch: `switch msg.(type) { case *types.MsgA: .. case *types.MsgB: .. }` on an sdk.Msg as a match on go_anymsg;
+// every case continues with the statements after the switch
+func (kt *kTrans) typeSwitch(t *ast.TypeSwitchStmt, rest []ast.Stmt) string {
+	var subj ast.Expr
+	bind := ""
+	switch a := t.Assign.(type) {
+	case *ast.ExprStmt:
+		if ta, ok := a.X.(*ast.TypeAssertExpr); ok {
+			subj = ta.X
+		}
+	case *ast.AssignStmt:
+		if len(a.Lhs) == 1 && len(a.Rhs) == 1 {
+			if ta, ok := a.Rhs[0].(*ast.TypeAssertExpr); ok {
+				subj = ta.X
+				bind = exprName(a.Lhs[0])
+			}
+		}
+	}
+	if subj == nil || t.Init != nil {
+		kt.fail("unsupported type switch")
+		return "?"
+	}
+	pre, sv, sty := kt.expr(subj)
+	if sty != tAnyMsg {
+		kt.fail("type switch on %s", sty)
+		return "?"
+	}
+	sname := exprName(subj)
+	saved := map[string]gtype{}
+	for k, v := range kt.env {
+		saved[k] = v
+	}
+	restore := func() {
+		kt.env = map[string]gtype{}
+		for k, v := range saved {
+			kt.env[k] = v
+		}
+	}
+	if kt.caseOf == nil {
+		kt.caseOf = map[string][2]string{}
+	}
+	prevCase, hadPrev := kt.caseOf[sname]
+	arms := ""
+	hasDefault := false
+	for _, c := range t.Body.List {
+		cc := c.(*ast.CaseClause)
+		if cc.List == nil {
+			hasDefault = true
+			restore()
+			arms += "| _ =>\n" + kt.stmts(append(append([]ast.Stmt{}, cc.Body...), rest...)) + "\n"
+			continue
+		}
+		for _, ty := range cc.List {
+			sn := strings.TrimPrefix(exprName(ty), "types.")
+			if _, ok := structTable[sn]; !ok {
+				kt.fail("type switch case %s", exprName(ty))
+				continue
+			}
+			cv := "m" + kt.tmp()
+			restore()
+			kt.caseOf[sname] = [2]string{sn, cv}
+			head := ""
+			if bind != "" && len(cc.List) == 1 {
+				kt.env[bind] = gtype("S:" + sn)
+				head = "let " + bind + " := " + cv + " in\n"
+			}
+			arms += "| AM_" + sn + " " + cv + " =>\n" + head + kt.stmts(append(append([]ast.Stmt{}, cc.Body...), rest...)) + "\n"
+		}
+	}
+	if hadPrev {
+		kt.caseOf[sname] = prevCase
+	} else {
+		delete(kt.caseOf, sname)
+	}
+	restore()
+	if !hasDefault {
+		arms += "| _ =>\n" + kt.stmts(rest) + "\n"
+	}
+	restore()
+	return kwrap(pre, "match "+sv+" with\n"+arms+"end")
+}
+
 // assignedOuter: variables declared before the loop that its body assigns with `=` (also through a field)
 func assignedOuter(body *ast.BlockStmt, env map[string]gtype) []string {
 	seen := map[string]bool{}
@@ -1459,6 +1603,9 @@ func (kt *kTrans) rangeStmt(t *ast.RangeStmt, rest []ast.Stmt) string {
 		return "?"
 	}
 	pre, xs, xty := kt.expr(t.X)
+	if xty == tCoins {
+		xty = gtype("L:" + string(tCoin))
+	}
 	if !isList(xty) {
 		kt.fail("range over %s", xty)
 		return "?"
@@ -1535,6 +1682,10 @@ func sigOf(fd *ast.FuncDecl) (fnSig, []field, string) {
 	for i, f := range fd.Type.Params.List {
 		if exprName(f.Type) == "keeper.Keeper" && len(f.Names) == 1 {
 			recv = f.Names[0].Name // the keeper handed in: calls on it are the module's keeper calls
+			continue
+		}
+		if tn := exprName(f.Type); (tn == "WrkchainKeeper" || tn == "BeaconKeeper") && len(f.Names) == 1 {
+			recv = f.Names[0].Name // the module keeper behind the ante package's interface
 			continue
 		}
 		if tn := exprName(f.Type); tn == "types.BankKeeper" || tn == "types.AccountKeeper" {
@@ -1654,7 +1805,7 @@ func writeKeeper(repo, module, typesOut, keeperOut string) {
 			}
 		}
 	}
-	for _, fn := range cur.rootFiles {
+	for _, fn := range append(append([]string{}, cur.rootFiles...), cur.anteFiles...) {
 		f := parseFile(filepath.Join(repo, "x", cur.name, fn))
 		for _, d := range f.Decls {
 			if fd, ok := d.(*ast.FuncDecl); ok && fd.Body != nil {
